@@ -271,6 +271,24 @@ theorem datetime_order_strict (a b c : XmlDateTime)
   refine ⟨fun h => ?_, fun x y => ?_⟩
   · have := haa.mpr h; omega
   · have := h1.mpr x; have := h2.mpr y; exact h3.mp (by omega)
+/-- **offsets move the instant the right way**: the same wall-clock reading in two timezones —
+the one further east (larger offset) is the earlier instant, whatever the fields are
+(`2000-01-01T12:00:00+01:00 < 2000-01-01T12:00:00Z`); a missing timezone counts as UTC -/
+theorem datetime_offset_order (v : XmlDateTime) (oa ob : Option Int) :
+    ({ v with offset := oa } : XmlDateTime).timeline < ({ v with offset := ob } : XmlDateTime).timeline
+      ↔ ob.getD 0 < oa.getD 0 := by
+  simp only [XmlDateTime.timeline]
+  omega
+
+/-- the same for `XmlTime` -/
+theorem time_offset_order (v : XmlTime) (oa ob : Option Int) :
+    ({ v with offset := oa } : XmlTime).timeline < ({ v with offset := ob } : XmlTime).timeline
+      ↔ ob.getD 0 < oa.getD 0 := by
+  simp only [XmlTime.timeline]
+  omega
+
+example : (⟨2000, 1, 1, 12, 0, 0, 0, some 60⟩ : XmlDateTime).timeline
+    < (⟨2000, 1, 1, 12, 0, 0, 0, none⟩ : XmlDateTime).timeline := by decide
 example : todOK 23 59 59 5 ∧ (⟨23, 59, 59, 5, some 60⟩ : XmlTime).offset = some 60 := by
   unfold todOK; exact ⟨by omega, rfl⟩
 
